@@ -687,6 +687,19 @@ def k_c12(ctx):
             tk = K.ticks_of(p); s = [l.copy(tick=tk[hash(l.tick) % len(tk)]) for l in s]
             if min(l.date for l in s) <= last + datetime.timedelta(days=30): continue
             vs["ext%d" % j] = p + s
+        # a continuation that starts exactly on a tax-year boundary date: a sale of half of what is held (or a purchase)
+        first_ok = last + datetime.timedelta(days=31)
+        for (mm, dd) in rng.sample([(4, 5), (4, 6), (4, 6), (4, 7), (12, 31), (1, 1)], 2):
+            y = first_ok.year
+            while datetime.date(y, mm, dd) < first_ok: y += 1
+            if y > 2025: continue
+            d0 = datetime.date(y, mm, dd); tk = K.ticks_of(p); t = rng.choice(tk)
+            days = K.per_day(p, t)
+            held = sum((x["b"] - x["s"]) * K.rho(days, zz, 10**9) for zz, x in days.items())
+            cont = [Line(d0, t, "SELL", gen.dec_str(held / 2), rng.choice(gen.PRICE), "GBP", rng.choice(gen.FEES))] if (held > 0 and classes._repr28(held / 2)) else \
+                   [Line(d0, t, "BUY", "10", rng.choice(gen.PRICE), "GBP", None)]
+            if rng.random() < 0.5: cont.append(Line(d0 + datetime.timedelta(days=rng.choice([1, 40])), t, "BUY", "5", rng.choice(gen.PRICE), "GBP", None))
+            vs["anchor%02d%02d" % (mm, dd)] = p + cont
         groups["g%d" % i] = {"base": p, "vars": vs, "last": last}
     def judge(gid, base, vs, g):
         fails = []
